@@ -202,6 +202,10 @@ func (e *Engine) Load() error {
 			return err
 		}
 		e.specs[p.PkgPath] = ps
+	}
+	for _, f := range files {
+		p := byDir[filepath.Dir(f)]
+		ps := e.specs[p.PkgPath]
 		src, err := e.GenerateOverlay(ps, p.Types, fnIdx[p.PkgPath])
 		if err != nil {
 			return err
@@ -282,6 +286,12 @@ func (e *Engine) Load() error {
 			all = append(all, con.Callers...)
 			all = append(all, con.Ensures...)
 			all = append(all, con.Modifies...)
+			if con.Coupling != nil {
+				all = append(all, con.Coupling)
+			}
+			for _, m := range con.Models {
+				all = append(all, m)
+			}
 			for _, ls := range con.Loops {
 				all = append(all, ls.Invariants...)
 				if ls.Decreases != nil {
@@ -635,4 +645,33 @@ func (e *Engine) dynCallKind(fn *ssa.Function, t types.Type) string {
 	}
 	key := types.TypeString(t.Underlying(), func(p *types.Package) string { return p.Name() })
 	return ps.DynCalls[key]
+}
+
+// specByPkgName finds the spec of the package with the given name.
+func (e *Engine) specByPkgName(name string) *PkgSpec {
+	for p, ps := range e.specs {
+		if p == name || strings.HasSuffix(p, "/"+name) {
+			return ps
+		}
+	}
+	return nil
+}
+
+// ghostRetType returns the declared result type text of ghost function `name`
+// in the package of "pkg.Iface".
+func (e *Engine) ghostRetType(iface, name string) string {
+	i := strings.Index(iface, ".")
+	if i < 0 {
+		return ""
+	}
+	ps := e.specByPkgName(iface[:i])
+	if ps == nil {
+		return ""
+	}
+	for _, p := range ps.Preds {
+		if p.Ghost && p.Name == name {
+			return p.Ret
+		}
+	}
+	return ""
 }
